@@ -331,6 +331,48 @@ def gen_case(rng, mode):
     return ops
 
 
+def gen_scopes_case(rng):
+    """two or three named scopes plus the global mock, expectations everywhere, and (mostly) exactly one
+    unit left open in ONE scope - often not the last one - before expectedCallsLeft / checkExpectations"""
+    named = ["s%d" % (i + 1) for i in range(rng.choice([2, 2, 3]))]
+    scopes = (["-"] if rng.random() < 0.7 else []) + named
+    ops, calls = [], []
+    strict = rng.random() < 0.2
+    if strict:
+        ops.append("strict -")          # before the scopes exist: they inherit it
+    exps = []
+    for sc in scopes:
+        for _ in range(rng.choice([1, 1, 2])):
+            e = decorate(rng, fresh_exp(rng, sc, rng.choice(FUNCS)))
+            if e.count in ("0", "no"):
+                e.count = "one"
+            if unambiguous_with(exps, e):
+                exps.append(e)
+    rng.shuffle(exps) if not strict else None
+    for e in exps:
+        ops.append(e.line(rng))
+        for _ in range(e.n()):
+            calls.append(call_of(e, rng))
+    if not strict:
+        rng.shuffle(calls)
+    x = rng.random()
+    if x < 0.7 and calls:
+        # leave one unit open in a chosen scope (all but the last scope are preferred)
+        order = [sc for sc in scopes[:-1] for _ in range(3)] + [scopes[-1]]
+        sc = rng.choice(order)
+        idx = [i for i, c in enumerate(calls) if c.scope == sc]
+        if idx:
+            calls.pop(rng.choice(idx))
+    elif x < 0.8 and calls:
+        mutate(rng, calls, scopes)
+    for c in calls:
+        c.r = rng.random() < 0.5
+    ops += [c.line(rng) for c in calls]
+    tail = rng.choice([["left -", "check -"], ["check -"], ["left -"], ["left " + rng.choice(named), "check -"],
+                       ["check " + n for n in rng.sample(named, len(named))] + ["check -"]])
+    return ops + tail
+
+
 def gen_malformed(rng):
     ops = gen_case(rng, "plain")
     junk = ["call", "call -", "expect - x f0", "expect - no f0 p:p0:i:1", "call - f0 r p:p0:i:1", "call - f0 p:p0:z:1",
@@ -345,7 +387,7 @@ def generate(rng, tier):
     n = 1400 if tier == "quick" else 30000
     out = []
     for _ in range(n):
-        out.append(("plain", gen_case(rng, "plain")))
+        out.append(("plain", gen_scopes_case(rng) if rng.random() < 0.12 else gen_case(rng, "plain")))
     for _ in range(n // 2):
         out.append(("iop", gen_case(rng, "iop")))
     for _ in range(n // 3):
@@ -399,6 +441,11 @@ def observe(r, rep):
         rep.count("oracle.judged." + tag)
     if tag == "iop" and any(" iop" in l or l.endswith("iop") for l in r.ops if l.startswith("expect ")):
         rep.count("feature.ignoreOtherParameters")
+    named = {l.split()[1] for l in r.ops if len(l.split()) > 1 and l.split()[0] == "expect" and l.split()[1] != "-"}
+    if len(named) >= 2:
+        rep.count("feature.two_or_more_named_scopes")
+        if any(l == "fail Mock Failure: Expected call WAS NOT fulfilled." for l in r.impl):
+            rep.count("feature.unfulfilled_with_named_scopes")
     if any(l.startswith("strict ") for l in r.ops):
         rep.count("feature.strict")
     if any(l.split()[1] != "-" for l in r.ops if len(l.split()) > 1 and l.split()[0] in ("expect", "call")):
@@ -411,38 +458,32 @@ def observe(r, rep):
 LEVEL_TEXT = ("Machine-checked Lean 4 theorems (lean/CppUModel/Props/C08.lean) over an executable model of the mock matching "
               "algorithm as it is in the source (candidate list per actual call, pruning by name / parameter / output parameter / "
               "object with the reset of dropped candidates, per-expectation passed flags inside the shared expectation objects, "
-              "completeCallWhenMatchIsFound, callWasMade with the order window, checkExpectations), for expectation lists and call "
-              "sequences of ANY length in the plain class (no ignoreOtherParameters; unambiguous expectation sets; distinct "
-              "parameter names inside one call), whatever the order of a call's steps: call_succeeds_iff (a call is fulfilled "
-              "iff an expectation with capacity has its signature, consumes the first such, leaves all flags clean), "
-              "verdict_iff_multiset_eq and verdict_order_independent (non-strict verdict = multiset equality of signatures with "
-              "multiplicities, invariant under any permutation of the calls), strict_verdict_iff_sequence_eq (strict order: "
-              "verdict = sequence equality, per MockSupport object), first_deviation_diagnosis / run_is_specRun (the run fails at "
-              "the first deviating call, once, with exactly the diagnosis Spec.diagnose computed from the signature sets: "
-              "unexpected call, additional n-th call, parameter name, parameter value, output parameter, unexpected object, "
-              "missing parameter, missing object; else unfulfilled, then out-of-order at the end), returns_value_of_consumed, "
-              "outputs_copied_from_consumed_partial, plus lemmas that expectNCalls produces the hypotheses (clean flags, "
-              "consecutive order windows) and that the diagnosis texts are the regenerated ones; for EVERY class (also "
-              "ignoreOtherParameters and ambiguous sets) no_stale_matching_state / calls_leave_clean: a call that reports no "
-              "failure leaves all matching flags clean. The model is tied to the code "
-              "on every run by a differential harness over generated scenarios (real mock()/mock(scope) API, recording "
-              "reporter, ASan/UBSan), and the implementation's own observations (verdict, first line of the failure, returned "
-              "values, output bytes, expectedCallsLeft) are judged by an independent textbook oracle, in the plain class and in "
-              "the ignoreOtherParameters class (a call matches such an expectation iff name/object agree and every parameter it "
-              "names occurs with an equal value, extra parameters allowed; per-class counting for unambiguous sets; a call "
-              "lacking a required parameter must fail with the missing-parameter diagnosis); the failure-message table "
-              "is regenerated from MockFailure.cpp.")
+              "completeCallWhenMatchIsFound, the deferred match of ignoreOtherParameters expectations, callWasMade with the order "
+              "window, checkExpectations over scopes), for expectation lists and call sequences of ANY length and any order of a "
+              "call's steps. For every unambiguous expectation set, plain or with ignoreOtherParameters (mixed allowed): "
+              "call_succeeds_iff(_general) (a call is fulfilled iff an expectation with capacity matches it, consumes the first "
+              "such, returns its value), verdict_iff_multiset_eq / iop_verdict_iff_multiset_eq (verdict = multiset equality per "
+              "signature class) and verdict_order_independent, strict_verdict_iff_sequence_eq(_general) (strict order: sequence "
+              "equality per MockSupport object). Plain class in addition: first_deviation_diagnosis / run_is_specRun (the run fails "
+              "at the first deviating call, once, with exactly the diagnosis Spec.diagnose computed from the signature sets: "
+              "unexpected / additional n-th call, parameter name, parameter value, output parameter, unexpected object, missing "
+              "parameter, missing object; else unfulfilled, then out-of-order), outputs_copied_from_consumed (the caller's "
+              "buffers with exactly the consumed expectation's bytes copied in, tail untouched). For EVERY expectation list: "
+              "lazy_run_is_eager (calls finished lazily by the next actualCall / the return-value getter / checkExpectations, and "
+              "ignoreOtherCalls skipping unknown functions, give the verdict of the eager run; hence lazy_*verdict* theorems and "
+              "ioc_verdict_iff_multiset_eq), no_stale_matching_state, checkExpectations_over_scopes / expectedCallsLeft_over_scopes "
+              "/ unfulfilled_in_any_scope_fails (an unfulfilled expectation in ANY scope fails the global check), plus lemmas that "
+              "expectNCalls produces the hypotheses and that the diagnosis texts are the regenerated ones. The model is tied to "
+              "the code on every run by a differential harness over generated scenarios (real mock()/mock(scope) API, recording "
+              "reporter, ASan/UBSan); the implementation's own observations (verdict, first line of the failure, returned values, "
+              "output bytes, expectedCallsLeft) are judged by an independent textbook oracle in the plain and in the "
+              "ignoreOtherParameters class; the failure-message table is regenerated from MockFailure.cpp.")
 LEVEL_NOTE = ("Trusted: Lean kernel; the hand-written model (validated against the code by the correspondence of this run, "
-              "including scopes, ignoreOtherCalls, enable/disable, clear, expectedCallsLeft, ignoreOtherParameters and ambiguous "
-              "sets, which the theorems do not cover); the oracle's reading of the property; the message extractor. The "
-              "theorems speak about callFull/run, i.e. every call finished before the next statement; scope_call_is_callFull / "
-              "check_is_endCheck prove that the per-scope functions the correspondence driver replays (Scope.actualCall, "
-              "Scope.seg, Scope.checkLast, World.check) compute exactly callFull / endCheck in that situation; finishing a "
-              "call only at the next actualCall / checkExpectations (deferred) gives the same verdict by correspondence, "
-              "not by proof. Partial: outputs_copied_from_consumed (copied bytes proved, "
-              "untouched tail only observed); the ignoreOtherParameters class: only no_stale_matching_state is proved, the "
-              "verdict statement iop_verdict_iff_multiset_eq_full stays a visible unproved def and is judged by the oracle on "
-              "every run. Not carried by theorems: ignoreOtherCalls, ambiguous sets (correspondence only), mixed-integer "
-              "parameter equality (C09).")
+              "including enable/disable, clear, ambiguous sets and malformed calls, which the theorems do not cover); the oracle's "
+              "reading of the property; the message extractor. The run theorems are stated for one MockSupport object (the "
+              "global mock, name \"\"); scoped function names and the interplay of several scopes are covered by "
+              "checkExpectations_over_scopes / expectedCallsLeft_over_scopes and otherwise by correspondence. Diagnosis and "
+              "output-byte theorems are for the plain class; for ignoreOtherParameters the diagnosis is judged by the oracle "
+              "only. Not carried by theorems: ambiguous sets, enable/disable, mixed-integer parameter equality (C09).")
 TECHNIQUE = ("Lean 4 invariant / refinement-to-multiset proofs over an executable model + differential correspondence harness "
              "+ independent specification oracle + regenerated failure-message table")
